@@ -315,12 +315,13 @@ class Context:
                 # For arrays, check both properties and array indices
                 try:
                     idx = int(prop)
-                    if 0 <= idx < len(this_val._elements):
+                    if 0 <= idx < len(this_val._elements) and str(idx) == prop:
                         return True
                 except (ValueError, TypeError):
                     pass
                 return (
-                    this_val.has(prop)
+                    prop == "length"
+                    or this_val.has(prop)
                     or prop in this_val._getters
                     or prop in this_val._setters
                 )
